@@ -186,7 +186,12 @@ def main(tier, seed):
                 if m:
                     lines = open(mods[0]).read().split("\n")
                     ln = lines[int(m.group(1)) - 1] if int(m.group(1)) <= len(lines) else ""
-                    if re.search(r"\b(%s)\b" % "|".join(PYKW - {"property", "is", "class", "def", "pass", "raise", "assert", "except", "try", "global", "import"}), ln) \
+                    # names of defined types, functions and constants of this schema that are Python keywords (the generator
+                    # escapes entity, attribute and enumeration item names only)
+                    unesc = {x["name"].lower() for x in list(S.types) + list(S.functions) + list(getattr(S, "consts", []) or []) if isinstance(x, dict) and x.get("name", "").lower() in PYKW}
+                    unesc |= {c[0].lower() for c in (getattr(S, "consts", []) or []) if isinstance(c, tuple) and c[0].lower() in PYKW}
+                    if (unesc and re.search(r"\b(%s)\b" % "|".join(sorted(unesc)), ln)) or \
+                            re.search(r"\b(%s)\b" % "|".join(PYKW - {"property", "is", "class", "def", "pass", "raise", "assert", "except", "try", "global", "import"}), ln) \
                             or re.match(r"\s*(class|def)\s+(%s)\b" % "|".join(PYKW), ln) or re.match(r"\s*(%s)\s*=" % "|".join(PYKW), ln) \
                             or re.search(r"[(,]\s*(%s)\s*[,)]" % "|".join(PYKW), ln):
                         sig = "keyword_named_defined_type"
